@@ -44,6 +44,7 @@ PROPS = {
             {"name": "fold", "run": "TestFold", "kind": "rapid", "checks": {Q: 20000, T: 2400000}, "shards": {Q: 4, T: 16}},
             {"name": "sweep", "run": "TestSweep", "kind": "plain", "shards": {Q: 2, T: 16}, "args": {Q: ["-rapid.checks=3"], T: ["-rapid.checks=40"]}},
             {"name": "model", "run": "TestModelUpdateList", "kind": "rapid", "checks": {Q: 8000, T: 1600000}, "shards": {Q: 2, T: 16}, "env": {"VERIF_TIER": "thorough"}},
+            {"name": "periods", "run": "TestUnmentionedPeriods", "kind": "rapid", "checks": {Q: 6000, T: 600000}, "shards": {Q: 2, T: 8}},
         ],
     },
     "C18": {
@@ -85,6 +86,7 @@ PROPS = {
         "runs": [
             {"name": "protect", "run": "TestWriteProtection", "kind": "rapid", "checks": {Q: 24000, T: 1920000}, "shards": {Q: 4, T: 16}},
             {"name": "sweep", "run": "TestSweep", "kind": "plain", "shards": {Q: 4, T: 16}, "env": {"VERIF_SWEEP_LEN": {Q: 3, T: 4}}},
+            {"name": "periods", "run": "TestUnaddressedPeriods", "kind": "rapid", "checks": {Q: 6000, T: 600000}, "shards": {Q: 2, T: 8}},
             {"name": "besidelocal", "run": "TestWriteVsLocalUpdate", "kind": "plain", "shards": {Q: 2, T: 8}, "env": {"VERIF_ROUNDS": {Q: 1500, T: 40000}}},
         ],
     },
@@ -198,6 +200,7 @@ PROPS = {
             {"name": "callbacks", "run": "TestCallbacks", "kind": "rapid", "checks": {Q: 6000, T: 600000}, "shards": {Q: 4, T: 16}, "steps": 30},
             {"name": "sites", "run": "TestSites", "kind": "plain"},
             {"name": "scenario", "run": "TestScenario", "kind": "plain"},
+            {"name": "sameCallback", "run": "TestSameCallbackRegisteredConcurrently", "kind": "plain", "shards": {Q: 4, T: 16}, "env": {"VERIF_ROUNDS": {Q: 200, T: 3000}}},
         ],
     },
     "C15": {
